@@ -10,8 +10,10 @@ static uint32_t draws[64]; static int ndraw, draw_pos; static int log_draws;
 static vrng R;
 
 static const char *s_name(void) { return "verif-scripted"; }
+static long rej_run; static uint32_t rej_val;     /* a long run of one (rejected) value before the script continues */
 static uint32_t s_random(void) {
-    uint32_t r = draw_pos < ndraw ? draws[draw_pos] : 0xffffffffu; draw_pos++;
+    uint32_t r;
+    if (rej_run > 0) { rej_run--; r = rej_val; } else { r = draw_pos < ndraw ? draws[draw_pos] : 0xffffffffu; draw_pos++; }
     if (log_draws) { unsigned char b[4] = { (unsigned char) r, (unsigned char) (r >> 8), (unsigned char) (r >> 16), (unsigned char) (r >> 24) };
         fprintf(v_out, "{\"e\":\"u_draw\","); v_emit_bytes("r", b, 4); fprintf(v_out, "}\n"); }
     return r;
@@ -135,6 +137,11 @@ int main(int argc, char **argv) {
             uniform_case(n, ds, nd);
         }
     }
+    /* ---- long runs of rejected draws: the sampler has no retry limit - the result is the first accepted draw however late it comes */
+    { static const uint32_t NS[3] = { 3, 0x80000001u, 10 }; static const long RUNS[6] = { 1023, 1024, 1025, 2500, 65536, 100000 };
+      for (int a = 0; a < 3; a++) for (int b = 0; b < (nuni >= 200 ? 6 : 4); b++) {
+          uint32_t n = NS[a], min = (uint32_t) (0x100000000ULL % n), ds[2] = { min + 7, 0xffffffffu }; if (!min) continue;
+          rej_val = min - 1; rej_run = RUNS[b]; uniform_case(n, ds, 2); rej_run = 0; } }
     /* ---- every generating API, three scripts each; run twice with the same script, once with another */
     for (int gi = 0; gi < NGEN; gi++) for (int variant = 0; variant < 3; variant++) {
         unsigned char out[256], out2[256], out3[256], served[512]; size_t l1, l2, l3;
